@@ -2,13 +2,18 @@
 From Coq Require Import Lia.
 From Delb.Base Require Import PyStr PyStrFacts.
 From Delb.Tree Require Import ATree ITree.
-From Delb.XPath Require Import Ast Nav FnLang Eval Ref Subset EvalRef LocPath.
+From Delb.XPath Require Import Ast Nav FnLang Num Eval Ref Subset EvalRef LocPath.
 From Delb.Gen Require Import GenXEval.
 
 (* ---- the predicate position() = k keeps exactly the k-th candidate *)
+Lemma num_compare_eq_N a b : num_compare CEq (xnum_of_N a) (xnum_of_N b) = N.eqb a b.
+Proof.
+  unfold num_compare, xnum_cmp, xnum_of_N, signed, pow10. cbn [Z.of_nat Z.pow]. rewrite !Z.mul_1_r.
+  destruct (N.eqb_spec a b) as [->|Hn]; [apply Z.eqb_refl|]. apply Z.eqb_neq. intro H. apply N2Z.inj in H. contradiction.
+Qed.
 Lemma position_is_value m k c pos size :
   d_expr m (position_is k) c pos size = Ok (PBool (N.eqb pos k)).
-Proof. reflexivity. Qed.
+Proof. rewrite <- num_compare_eq_N. reflexivity. Qed.
 
 Lemma filter_pred_none m k size : forall cs pos, (k < pos)%N ->
   filter_pred m (position_is k) size pos cs = Ok [].
